@@ -95,7 +95,7 @@ IterCalls(P, L, R) ==
 Continue(P, L) == L.rem > P.minsub /\ L.left > 0
 
 (* the code after the loop *)
-Tail(P, L) ==
+AfterLoop(P, L) ==
   LET looping == L.left = 0 /\ L.dist < P.step
       moveb == ~looping /\ L.dist > 0 /\ L.bnd
       roundup == ~looping /\ L.dist > 0 /\ ~L.bnd /\ L.dist < P.step
@@ -166,6 +166,6 @@ RunFrom(P, L, advs, fnds, calls) ==
            cs == calls \o IterCalls(P, L, R)
        IN IF R.c <= 0 \/ ~RespExact(R) THEN [calls |-> cs, res |-> <<>>, L |-> L, complete |-> FALSE]
           ELSE IF Continue(P, L2) THEN RunFrom(P, L2, advs, fnds, cs)
-          ELSE LET t == Tail(P, L2) IN [calls |-> cs \o t.calls, res |-> t, L |-> L2, complete |-> TRUE]
+          ELSE LET t == AfterLoop(P, L2) IN [calls |-> cs \o t.calls, res |-> t, L |-> L2, complete |-> TRUE]
 Run(P, advs, fnds) == RunFrom(P, InitLoop(P), advs, fnds, <<>>)
 =============================================================================
